@@ -131,6 +131,13 @@ def render(name, s, e, nlook, prefix=None):
     else:
         judged_end = len(evs) - 1
     stamped = E.restamp(evs)
+    if prefix == 'same-tick':
+        # every record of the window, its lookups included, carries the same timestamp
+        out = [t for t in p.feed_generator([e._replace(timestamp=500) for e in stamped])]
+        mine = [t for t in out if type(t).__name__ != 'VfsLookup']
+        if len(mine) != 1:
+            return None, f'{len(mine)} traces for one START/END pair'
+        return E.stable_str(mine[0]), None
     if prefix == 'odd-timestamps':
         # stream order is what it is, but the timestamps are not increasing: nested records carry ticks below the START's,
         # the END carries the START's tick
@@ -286,6 +293,17 @@ class C09(Check):
                     continue
                 bad, call = judge(name, s, 2)
                 self._acc(acc, name, s, 2, bad, call)
+            # the call part is a function of the START words and the nested lookups - not of the ticks the records carry
+            s0 = tuple(d[0] for d in doms)
+            if not (name in ('BSC_getsockopt', 'BSC_setsockopt') and s0[1] in (1, 0xffff)):
+                b1, c1 = judge(name, s0, 2)
+                b2, c2 = judge(name, s0, 2, 'same-tick')
+                acc.case(nontrivial=True, transitions=12, outcome=None)
+                if not b1 and not b2 and c1 is not None and c2 is not None and c1 != c2:
+                    acc.violation(f'call-part-depends-on-timestamps@{name}', {'decoder': name, 'start': [hex(x) for x in s0], 'lookups': 2, 'prefix': 'same-tick'},
+                                  {'all_records_on_one_tick': repr(c2)[:200], 'increasing_ticks': repr(c1)[:200]})
+                elif b2:
+                    acc.violation(f'{b2[0]}:after-same-tick@{name}', {'decoder': name, 'start': [hex(x) for x in s0], 'lookups': 2, 'prefix': 'same-tick'}, b2[1])
             # histories: something precedes the judged pair (words of the preceding events never equal an enumerated word)
             for s in deviation_bounded(doms, 1):
                 if name in ('BSC_getsockopt', 'BSC_setsockopt') and s[1] in (1, 0xffff):
@@ -313,6 +331,14 @@ class C09(Check):
             acc = Acc()
             self.run_files([case['decoder']], acc)
             return [(sig, v['cases'][0][1]) for sig, v in acc.violations.items()]
+        if pre == 'same-tick':
+            b1, c1 = judge(case['decoder'], s, 2)
+            b2, c2 = judge(case['decoder'], s, 2, 'same-tick')
+            if b2:
+                return [(f"{b2[0]}:after-same-tick@{case['decoder']}", b2[1])]
+            if not b1 and c1 is not None and c2 is not None and c1 != c2:
+                return [(f"call-part-depends-on-timestamps@{case['decoder']}", {'all_records_on_one_tick': repr(c2)[:200], 'increasing_ticks': repr(c1)[:200]})]
+            return []
         bad, _ = judge(case['decoder'], s, case['lookups'], pre)
         return [(f"{bad[0]}{':after-' + pre if pre else ''}@{case['decoder']}", bad[1])] if bad else []
 
